@@ -356,6 +356,8 @@ type errTest struct {
 	target string // sentinel atom for eq / is
 	// trueMeans: the condition being true means the test holds (v == nil, v == S, errors.Is(v,S))
 	trueMeans bool
+	// noUnwrap: the test does not look through fmt.Errorf("%w") wrapping (os.IsNotExist and friends)
+	noUnwrap bool
 }
 
 // classifyErrCond decides whether cond is a test on the error value v.
@@ -404,7 +406,7 @@ func classifyErrCond(cond ssa.Value, v ssa.Value) (errTest, bool) {
 			}
 		case "os.IsNotExist":
 			if len(c.Call.Args) == 1 && same(c.Call.Args[0]) {
-				return errTest{kind: "is", target: "X:io/fs.ErrNotExist", trueMeans: pos}, true
+				return errTest{kind: "is", target: "X:io/fs.ErrNotExist", trueMeans: pos, noUnwrap: true}, true
 			}
 		}
 	}
